@@ -1,22 +1,25 @@
 // Package c05 decides C05: a blob upload commits exactly the caller's bytes
 // under their digest, or fails.
 //
-// A Case is plain data (chunk / max-put settings, blob length and content
-// seed, declared descriptor, source reader behaviour, digest algorithm,
-// destination kind, registry feature set, fault plan). check() uploads the blob
-// through the public client API (RegClient.BlobPut) into an in-process model
-// registry (regmodel, strict or lax-but-truthful) or into a fresh OCI layout
-// directory and judges the outcome against raw destination storage.
+// A Case is plain data (chunk / max-put / chunk-limit settings, blob length and
+// content seed, declared descriptor, source reader behaviour, digest algorithm,
+// destination kind and pre-state, reference form and host configuration,
+// context state, registry feature set, fault plan, entry point, repetition).
+// check() uploads the blob(s) through the public client API (RegClient.BlobPut,
+// or RegClient.BlobCopy which reaches it with a blob.Reader source) into an
+// in-process model registry (regmodel, strict or lax-but-truthful) or into an
+// OCI layout directory and judges every outcome against raw destination storage.
 package c05
 
 import (
 	"context"
+	"encoding/base64"
+	"errors"
 	"fmt"
 	"io"
 	"net/http"
 	"os"
 	"path/filepath"
-	"sort"
 	"strings"
 	"time"
 
@@ -36,9 +39,15 @@ const (
 	prop        = "C05"
 	regHost     = "dest.example.test"
 	backendHost = "upload.example.test"
+	mirrorHost  = "mirror.example.test"
+	srcHost     = "src.example.test"
 	repoName    = "proj/app"
 	otherRepo   = "lib/base"
-	defChunk    = 1024 * 1024 // documented default chunk size (reg.defaultBlobChunk)
+	pathPrefix  = "cache/up"
+	authUser    = "c05user"
+	authPass    = "c05-secret"
+	defChunk    = 1024 * 1024        // documented default chunk size (reg.defaultBlobChunk)
+	defLimit    = 1024 * 1024 * 1024 // documented default chunk limit (reg.defaultBlobChunkLimit)
 	reqCap      = 4000
 )
 
@@ -55,6 +64,7 @@ type Decl struct {
 // Feat is the generated registry behaviour (all within the distribution spec).
 type Feat struct {
 	MountStatus int   `json:"mount_status"`          // anonymous mount: 0 -> 202 session, 201 granted when the host holds the blob, 4xx refused
+	MountGrant  bool  `json:"mount_grant,omitempty"` // cross-repository mount (mount=&from=) is granted when the source repository holds the blob
 	Preseed     bool  `json:"preseed,omitempty"`     // the blob already exists in another repository of the host
 	ChunkMin    int   `json:"chunk_min,omitempty"`   // OCI-Chunk-Min-Length announced
 	EnforceMin  bool  `json:"enforce_min,omitempty"` // a PATCH that follows a chunk shorter than ChunkMin is rejected (only without a partial-acceptance plan)
@@ -73,24 +83,53 @@ type FaultSpec struct {
 	Status int    `json:"status,omitempty"`
 }
 
+// CtxSpec is the state of the context handed to the client.
+type CtxSpec struct {
+	// Kind: "" live | cancelled | deadline (already expired) | cancel-at-seq (cancelled when request N arrives)
+	// | cancel-after-bytes (cancelled once the source has handed out N bytes)
+	Kind string `json:"kind,omitempty"`
+	N    int    `json:"n,omitempty"`
+}
+
+// RefSpec is the reference form and the host configuration the client is given.
+type RefSpec struct {
+	Form   string `json:"form,omitempty"`   // "" repository only | tag | digest | tag+digest
+	Port   bool   `json:"port,omitempty"`   // registry name carries a port
+	Prefix bool   `json:"prefix,omitempty"` // config.Host.PathPrefix is set
+	NoTLS  bool   `json:"no_tls,omitempty"` // config.Host.TLS = disabled (http scheme)
+	Mirror int    `json:"mirror,omitempty"` // 0 none; 1 a mirror with higher priority value; 2 a mirror with lower priority value than the registry
+	Auth   bool   `json:"auth,omitempty"`   // registry demands Basic credentials (config.Host User/Pass)
+}
+
 // Case is the generated unit.
 type Case struct {
 	Dest        string      `json:"dest"` // reg-strict | reg-lax | layout
 	OptChunk    int         `json:"opt_chunk"`
 	OptMax      int         `json:"opt_max"`
+	OptLimit    int         `json:"opt_limit,omitempty"`   // reg.WithBlobLimit (0 = not passed)
+	LimitFirst  bool        `json:"limit_first,omitempty"` // WithBlobLimit is passed before WithBlobSize
 	HostChunk   int         `json:"host_chunk"`
 	HostMax     int         `json:"host_max"`
 	Len         int         `json:"len"`
 	ContentSeed uint64      `json:"content_seed"`
 	Declared    Decl        `json:"declared"`
+	DescExtra   bool        `json:"desc_extra,omitempty"` // descriptor also carries mediaType / annotations / artifactType
 	Seekable    bool        `json:"seekable"`
+	SrcKind     string      `json:"src_kind,omitempty"`    // "" (see Seekable) | seek-error: implements io.Seeker but every Seek fails (a pipe on stdin)
 	ShortReads  []int       `json:"short_reads,omitempty"` // cyclic cap on the bytes returned per Read (>=1)
 	EOFWithData bool        `json:"eof_with_data,omitempty"`
-	Algo        string      `json:"algo"` // sha256 | sha512
+	ReadErrAt   int         `json:"read_err_at,omitempty"` // k+1: the source fails with a non-EOF error after k bytes (every pass); 0 = never
+	Algo        string      `json:"algo"`                  // sha256 | sha512
 	Feat        Feat        `json:"feat"`
 	Faults      []FaultSpec `json:"faults,omitempty"`
 	RetryLimit  int         `json:"retry_limit,omitempty"`
-	Origin      string      `json:"origin,omitempty"` // prop | grid (informational)
+	Ctx         CtxSpec     `json:"ctx,omitempty"`
+	Ref         RefSpec     `json:"ref,omitempty"`
+	Pre         string      `json:"pre,omitempty"`   // "" empty destination | same-blob: the destination already holds the blob
+	Again       int         `json:"again,omitempty"` // 0 one upload | 1 the same blob is uploaded a second time | 2 a second, different blob follows (same client)
+	Len2        int         `json:"len2,omitempty"`  // Again == 2: length of the second blob
+	Entry       string      `json:"entry,omitempty"` // "" BlobPut | copy-layout | copy-reg | copy-repo: RegClient.BlobCopy from a layout / another registry / another repository of the destination registry
+	Origin      string      `json:"origin,omitempty"`
 }
 
 // ---- source reader ----
@@ -114,21 +153,34 @@ func content(seed uint64, n int) []byte {
 	return out
 }
 
+var errSource = errors.New("c05: source stream failed")
+
 type source struct {
 	data        []byte
 	pos         int
 	pat         []int
 	pi          int
 	eofWithData bool
+	errAt       int // >= 0: a non-EOF error is returned once pos reaches errAt (every pass)
 	delivered   int // total bytes handed out (all passes)
 	seeks       int
+	failed      bool   // errSource was returned at least once
+	onBytes     func() // called after every read that delivered data
 }
 
 func (s *source) Read(p []byte) (int, error) {
 	if len(p) == 0 {
 		return 0, nil
 	}
-	if s.pos >= len(s.data) {
+	end := len(s.data)
+	if s.errAt >= 0 && s.errAt < end {
+		end = s.errAt
+	}
+	if s.pos >= end {
+		if end < len(s.data) {
+			s.failed = true
+			return 0, errSource
+		}
 		return 0, io.EOF
 	}
 	n := len(p)
@@ -142,9 +194,12 @@ func (s *source) Read(p []byte) (int, error) {
 			n = k
 		}
 	}
-	n = copy(p[:n], s.data[s.pos:])
+	n = copy(p[:n], s.data[s.pos:end])
 	s.pos += n
 	s.delivered += n
+	if s.onBytes != nil {
+		s.onBytes()
+	}
 	if s.pos == len(s.data) && s.eofWithData {
 		return n, io.EOF
 	}
@@ -176,31 +231,51 @@ func (s seekSource) Seek(off int64, whence int) (int64, error) {
 	return np, nil
 }
 
+// pipeSource has a Seek method that always fails, like *os.File on a pipe.
+type pipeSource struct{ s *source }
+
+func (p pipeSource) Read(b []byte) (int, error) { return p.s.Read(b) }
+func (p pipeSource) Seek(off int64, whence int) (int64, error) {
+	p.s.seeks++
+	return 0, fmt.Errorf("seek |0: illegal seek")
+}
+
 type plainSource struct{ s *source }
 
 func (p plainSource) Read(b []byte) (int, error) { return p.s.Read(b) }
 
 // ---- derived facts (computed independently of the code under test) ----
 
-type facts struct {
-	data       []byte
+// caseFacts are the facts shared by all uploads of a case.
+type caseFacts struct {
 	algo       string
+	chunkCfg   int // configured chunk size
+	chunkEff   int // after OCI-Chunk-Min-Length (capped by the chunk limit)
+	limitEff   int
+	maxEff     int // <=0: no limit
+	accept     []int
+	faults     []FaultSpec
+	retryLimit int
+	isReg      bool
+	lax        bool
+	entry      string // put | copy-layout | copy-reg | copy-repo
+	rewindable bool   // the source can be rewound
+}
+
+// putFacts are the facts of one upload.
+type putFacts struct {
+	full       []byte // the blob the caller means to upload (declarations are made about it)
+	data       []byte // the byte sequence the stream really yields (a prefix of full when the source fails)
+	srcFails   bool
 	trueDig    string
 	declDig    string // "" = none
 	declSize   int64  // 0 = unknown
 	contra     bool   // the declaration contradicts the stream
 	contraDig  bool
 	contraSize bool
-	chunkCfg   int  // configured chunk size
-	chunkEff   int  // after OCI-Chunk-Min-Length
-	maxEff     int  // <=0: no limit
 	validDesc  bool // digest and size both usable for a single request
 	tryPut     bool // documented precondition of the single PUT
-	accept     []int
-	faults     []FaultSpec
-	retryLimit int
-	isReg      bool
-	lax        bool
+	kind       string
 }
 
 func normAccept(a []int) []int {
@@ -221,84 +296,54 @@ func normAccept(a []int) []int {
 	return out
 }
 
-func derive(c Case) facts {
-	var f facts
-	f.data = content(c.ContentSeed, c.Len)
+func deriveCase(c Case) caseFacts {
+	var f caseFacts
 	f.algo = "sha256"
 	if c.Algo == "sha512" {
 		f.algo = "sha512"
 	}
-	f.trueDig = rm.Digest(f.algo, f.data)
 	f.isReg = c.Dest != "layout"
 	f.lax = c.Dest == "reg-lax"
-	n := int64(len(f.data))
-	d := c.Declared
-	delta := int64(d.Delta)
-	if delta < 1 {
-		delta = 1
+	switch c.Entry {
+	case "copy-layout", "copy-reg", "copy-repo":
+		f.entry = c.Entry
+		if c.Entry == "copy-repo" && !f.isReg {
+			f.entry = "copy-layout"
+		}
+	default:
+		f.entry = "put"
 	}
-	switch d.Kind {
-	case "correct":
-		f.declDig, f.declSize = f.trueDig, n
-	case "digest-only":
-		f.declDig = f.trueDig
-	case "size-only":
-		f.declSize = n
-	case "wrong-digest":
-		var other []byte
-		switch {
-		case d.Wrong == 3 && n > 0:
-			other = nil // the digest of the empty blob
-		case d.Wrong == 1 && n > 0:
-			other = f.data[:n-1]
-		case d.Wrong == 0 && n > 0:
-			other = append([]byte{}, f.data...)
-			other[int(delta)%len(other)] ^= 0x01
-		default:
-			other = append(append([]byte{}, f.data...), 0x00)
-		}
-		f.declDig = rm.Digest(f.algo, other)
-		if !d.NoSize {
-			f.declSize = n
-		}
-	case "size-small", "size-large":
-		if d.Kind == "size-small" && n >= 2 {
-			s := n - delta
-			if s < 1 {
-				s = 1
-			}
-			f.declSize = s
-		} else {
-			f.declSize = n + delta
-		}
-		if !d.NoDigest {
-			f.declDig = f.trueDig
-		}
-	default: // absent
-	}
-	f.contraDig = f.declDig != "" && f.declDig != f.trueDig
-	f.contraSize = f.declSize > 0 && f.declSize != n
-	f.contra = f.contraDig || f.contraSize
-
+	f.rewindable = f.entry != "put" || (c.Seekable && c.SrcKind != "seek-error")
 	f.chunkCfg = defChunk
 	if c.HostChunk > 0 {
 		f.chunkCfg = c.HostChunk
 	} else if c.OptChunk > 0 {
 		f.chunkCfg = c.OptChunk
 	}
+	f.limitEff = defLimit
+	if c.OptLimit > 0 {
+		f.limitEff = c.OptLimit
+	}
 	f.chunkEff = f.chunkCfg
 	if f.isReg && c.Feat.ChunkMin > f.chunkEff {
 		f.chunkEff = c.Feat.ChunkMin
+		if f.chunkEff > f.limitEff {
+			f.chunkEff = f.limitEff
+		}
 	}
-	f.maxEff = -1
+	// single-PUT limit: host value, else option value; reg.WithBlobLimit applied after
+	// reg.WithBlobSize raises a positive option value below the limit up to the limit
+	optMax := -1
+	if c.OptMax != 0 {
+		optMax = c.OptMax
+	}
+	if c.OptLimit > 0 && !c.LimitFirst && optMax > 0 && optMax < c.OptLimit {
+		optMax = c.OptLimit
+	}
+	f.maxEff = optMax
 	if c.HostMax != 0 {
 		f.maxEff = c.HostMax
-	} else if c.OptMax != 0 {
-		f.maxEff = c.OptMax
 	}
-	emptySHA256 := rm.Digest("sha256", nil)
-	f.validDesc = (f.declSize > 0 && f.declDig != "") || (f.declSize == 0 && f.declDig == emptySHA256)
-	f.tryPut = f.validDesc && !(f.maxEff > 0 && f.declSize > int64(f.maxEff))
 	f.accept = normAccept(c.Feat.Accept)
 	f.retryLimit = c.RetryLimit
 	if f.retryLimit < 3 {
@@ -334,12 +379,91 @@ func derive(c Case) facts {
 	return f
 }
 
-func (f *facts) descriptor() descriptor.Descriptor {
+func derivePut(c Case, cf *caseFacts, seed uint64, length int, readErrAt int) putFacts {
+	var f putFacts
+	f.full = content(seed, length)
+	f.data = f.full
+	if cf.entry == "put" && readErrAt > 0 && readErrAt-1 < length {
+		f.data = f.full[:readErrAt-1]
+		f.srcFails = true
+	}
+	f.trueDig = rm.Digest(cf.algo, f.data)
+	fullDig := rm.Digest(cf.algo, f.full)
+	n := int64(len(f.full))
+	d := c.Declared
+	f.kind = d.Kind
+	if cf.entry != "put" && d.Kind != "digest-only" {
+		// BlobCopy fetches the blob by the caller's descriptor: only a correct one finds it
+		f.kind = "correct"
+	}
+	delta := int64(d.Delta)
+	if delta < 1 {
+		delta = 1
+	}
+	switch f.kind {
+	case "correct":
+		f.declDig, f.declSize = fullDig, n
+	case "digest-only":
+		f.declDig = fullDig
+	case "size-only":
+		f.declSize = n
+	case "wrong-digest":
+		var other []byte
+		switch {
+		case d.Wrong == 3 && n > 0:
+			other = nil // the digest of the empty blob
+		case d.Wrong == 1 && n > 0:
+			other = f.full[:n-1]
+		case d.Wrong == 0 && n > 0:
+			other = append([]byte{}, f.full...)
+			other[int(delta)%len(other)] ^= 0x01
+		default:
+			other = append(append([]byte{}, f.full...), 0x00)
+		}
+		f.declDig = rm.Digest(cf.algo, other)
+		if !d.NoSize {
+			f.declSize = n
+		}
+	case "size-small", "size-large":
+		if f.kind == "size-small" && n >= 2 {
+			s := n - delta
+			if s < 1 {
+				s = 1
+			}
+			f.declSize = s
+		} else {
+			f.declSize = n + delta
+		}
+		if !d.NoDigest {
+			f.declDig = fullDig
+		}
+	default: // absent
+		f.kind = "absent"
+	}
+	f.contraDig = f.declDig != "" && f.declDig != f.trueDig
+	f.contraSize = f.declSize > 0 && f.declSize != int64(len(f.data))
+	f.contra = f.contraDig || f.contraSize
+	emptySHA256 := rm.Digest("sha256", nil)
+	f.validDesc = (f.declSize > 0 && f.declDig != "") || (f.declSize == 0 && f.declDig == emptySHA256)
+	f.tryPut = f.validDesc && !(cf.maxEff > 0 && f.declSize > int64(cf.maxEff))
+	if cf.entry != "put" {
+		// BlobCopy hands BlobPut the descriptor of the blob.Reader, whose size was completed by the source
+		f.tryPut = (n > 0 || f.declDig == emptySHA256) && !(cf.maxEff > 0 && n > int64(cf.maxEff))
+	}
+	return f
+}
+
+func (f *putFacts) descriptor(algo string, extra bool) descriptor.Descriptor {
 	d := descriptor.Descriptor{Size: f.declSize}
 	if f.declDig != "" {
 		d.Digest = digest.Digest(f.declDig)
-	} else if f.algo == "sha512" {
+	} else if algo == "sha512" {
 		_ = d.DigestAlgoPrefer(digest.SHA512)
+	}
+	if extra {
+		d.MediaType = "application/vnd.oci.image.layer.v1.tar+gzip"
+		d.Annotations = map[string]string{"org.example.c05": "x"}
+		d.ArtifactType = "application/vnd.example.c05"
 	}
 	return d
 }
@@ -375,29 +499,31 @@ func lenClass(n, c int) string {
 	}
 }
 
-// observed summarises the request log of a registry case.
+// observed summarises the part of the request log that belongs to one upload.
 type observed struct {
-	reqs        int
-	patches     int
-	partial     bool // some PATCH was accepted only in part
-	monoTried   bool // a closing PUT with a body on an empty session was seen
-	monoOK      bool
-	monoFaulted bool // an injected failure hit a PUT that carried a body
-	mounted     bool
-	statusGets  int
-	faultsHit   int
-	resetAfter  bool // an "applied, response lost" failure was actually delivered
-	faultOn     []string
-	reloc416    int
-	capHit      bool
+	reqs              int
+	patches           int
+	partial           bool // some PATCH was accepted only in part
+	monoTried         bool // a closing PUT with a body on an empty session was seen
+	monoOK            bool
+	monoFaulted       bool // an injected failure hit a PUT that carried a body
+	mounted           bool
+	statusGets        int
+	faultsHit         int
+	resetAfter        bool // an "applied, response lost" failure was actually delivered
+	faultOn           []string
+	capHit            bool
 	emptyPutCommitted bool // a body-less closing PUT committed an empty session
-	ambiguous0  bool // an upload status GET was answered while nothing had been accepted: "Range: 0-0" cannot say so
+	ambiguous0        bool // an upload status GET was answered while nothing had been accepted: "Range: 0-0" cannot say so
+	mirrorUploads     int  // upload requests that reached the mirror
+	stall             int  // longest run of consecutive PATCH answers that accepted nothing
 }
 
-func observe(m *rm.Model) observed {
+func observe(entries []*rm.Entry) observed {
 	var o observed
 	accepted := 0
-	for _, e := range m.Entries() {
+	stall := 0
+	for _, e := range entries {
 		o.reqs++
 		injected := strings.HasPrefix(e.Fault, "status-") || e.Fault == "reset-before" || e.Fault == "reset-after"
 		if injected {
@@ -406,6 +532,12 @@ func observe(m *rm.Model) observed {
 			if e.Fault == "reset-after" {
 				o.resetAfter = true
 			}
+		}
+		if e.Fault == "cap" {
+			o.capHit = true
+		}
+		if strings.HasPrefix(e.Class, "upload-") && e.Host == mirrorHost {
+			o.mirrorUploads++
 		}
 		switch e.Class {
 		case "upload-patch":
@@ -417,10 +549,15 @@ func observe(m *rm.Model) observed {
 					if a < n {
 						o.partial = true
 					}
+					if a == 0 {
+						stall++
+						if stall > o.stall {
+							o.stall = stall
+						}
+					} else {
+						stall = 0
+					}
 				}
-			}
-			if e.Status == 416 {
-				o.reloc416++
 			}
 		case "upload-put":
 			if len(e.Body) == 0 && accepted == 0 && e.Applied && e.Status == 201 {
@@ -446,7 +583,6 @@ func observe(m *rm.Model) observed {
 			}
 		}
 	}
-	o.capHit = m.CapHit()
 	return o
 }
 
@@ -461,14 +597,22 @@ func errKind(err error) string {
 		return "size-mismatch"
 	case strings.Contains(s, "cap exceeded"):
 		return "request-cap"
-	case strings.Contains(s, "not a seeker"):
+	case strings.Contains(s, "source stream failed"):
+		return "source-error"
+	case strings.Contains(s, "context canceled") || strings.Contains(s, "deadline exceeded") || strings.Contains(s, "canceled"):
+		return "context"
+	case strings.Contains(s, "not a seeker") || strings.Contains(s, "illegal seek"):
 		return "not-a-seeker"
+	case strings.Contains(s, "not making progress"):
+		return "no-progress"
 	case strings.Contains(s, "contentlength"):
 		return "http-framing"
 	case strings.Contains(s, "[http 416]") || strings.Contains(s, "range not satisfiable") || strings.Contains(s, "range_invalid"):
 		return "http-416"
 	case strings.Contains(s, "[http 400]") || strings.Contains(s, "bad request"):
 		return "http-400"
+	case strings.Contains(s, "[http 401]") || strings.Contains(s, "unauthorized"):
+		return "http-401"
 	case strings.Contains(s, "[http 404]") || strings.Contains(s, "not found"):
 		return "http-404"
 	case strings.Contains(s, "retry limit") || strings.Contains(s, "backoff limit"):
@@ -483,33 +627,36 @@ func errKind(err error) string {
 	return "other"
 }
 
-// errWatchdog marks an inconclusive evaluation (never a violation).
+// sigWatchdog marks an inconclusive evaluation (never a violation).
 const sigWatchdog = "harness-watchdog"
 
 type putResult struct {
-	d   descriptor.Descriptor
-	err error
+	d        descriptor.Descriptor
+	err      error
+	panicked string
 }
 
-func runPut(rc *regclient.RegClient, r ref.Ref, d descriptor.Descriptor, rdr io.Reader) (putResult, bool) {
-	ctx, cancel := context.WithTimeout(context.Background(), 120*time.Second)
+// runOp runs one client call under a wall-clock watchdog.
+func runOp(parent context.Context, op func(ctx context.Context) (descriptor.Descriptor, error)) (putResult, bool) {
+	ctx, cancel := context.WithTimeout(parent, 120*time.Second)
 	defer cancel()
 	ch := make(chan putResult, 1)
 	go func() {
 		var res putResult
 		defer func() {
 			if p := recover(); p != nil {
-				res.err = fmt.Errorf("PANIC in BlobPut: %v", p)
+				res.panicked = fmt.Sprint(p)
+				res.err = fmt.Errorf("PANIC: %v", p)
 			}
 			ch <- res
 		}()
-		res.d, res.err = rc.BlobPut(ctx, r, d, rdr)
+		res.d, res.err = op(ctx)
 	}()
 	t := time.NewTimer(150 * time.Second)
 	defer t.Stop()
 	select {
 	case res := <-ch:
-		if ctx.Err() != nil {
+		if parent.Err() == nil && ctx.Err() != nil {
 			return res, true
 		}
 		return res, false
@@ -518,9 +665,9 @@ func runPut(rc *regclient.RegClient, r ref.Ref, d descriptor.Descriptor, rdr io.
 	}
 }
 
-func dumpLog(m *rm.Model) string {
+func dumpLog(entries []*rm.Entry) string {
 	var sb strings.Builder
-	for _, e := range m.Entries() {
+	for _, e := range entries {
 		cr := e.Header.Get("Content-Range")
 		fmt.Fprintf(&sb, "  #%d %s %s %s?%s body=%d cr=%q -> %d range=%q loc=%q fault=%q %s\n", e.Seq, e.Host, e.Method, e.Path, e.RawQuery, len(e.Body), cr, e.Status,
 			e.RespHeader.Get("Range"), e.RespHeader.Get("Location"), e.Fault, e.Note)
@@ -528,37 +675,689 @@ func dumpLog(m *rm.Model) string {
 	return sb.String()
 }
 
-func check(c Case, ev *evid.Collector) *evid.Violation {
-	f := derive(c)
-	src := &source{data: f.data, pat: c.ShortReads, eofWithData: c.EOFWithData}
+// store is the raw view of the destination.
+type store interface {
+	get(dig string) ([]byte, bool)
+}
+
+type regStore struct {
+	m    *rm.Model
+	h    *rm.Host
+	repo string
+}
+
+func (s regStore) get(dig string) ([]byte, bool) {
+	s.m.Lock()
+	defer s.m.Unlock()
+	r, ok := s.h.Repos[s.repo]
+	if !ok {
+		return nil, false
+	}
+	b, ok := r.Blobs[dig]
+	return b, ok
+}
+
+type layoutStore struct{ dir string }
+
+func blobFile(dir, dig string) string {
+	i := strings.IndexByte(dig, ':')
+	return filepath.Join(dir, "blobs", dig[:i], dig[i+1:])
+}
+
+func (s layoutStore) get(dig string) ([]byte, bool) {
+	b, err := os.ReadFile(blobFile(s.dir, dig))
+	if err != nil {
+		return nil, false
+	}
+	return b, true
+}
+
+// env is one prepared case.
+type env struct {
+	c         Case
+	cf        caseFacts
+	m         *rm.Model // nil for a layout destination without registry source
+	rc        *regclient.RegClient
+	tgt       ref.Ref
+	st        store
+	sigPrefix string
+	ctx       context.Context
+	cancel    context.CancelFunc
+	fired     *bool // the generated cancellation has happened
+	cleanup   []func()
+	locStyle  int
+	enforce   bool
+	preseed   bool
+	auth      bool
+	hostName  string
+	storeRepo string
+	srcRef    ref.Ref // copy entries
+	srcPut    func(dig string, data []byte) error
+	backoffs  int // injected failures and refusals delivered so far (they add up in the per-host backoff state)
+	dirty     bool
+}
+
+func (e *env) close() {
+	for _, f := range e.cleanup {
+		f()
+	}
+	if e.cancel != nil {
+		e.cancel()
+	}
+}
+
+func refSuffix(form string, seed uint64) string {
+	dig := rm.Digest("sha256", content(seed^0x5bd1e995, 9))
+	switch form {
+	case "tag":
+		return ":v1.2"
+	case "digest":
+		return "@" + dig
+	case "tag+digest":
+		return ":v1.2@" + dig
+	}
+	return ""
+}
+
+func setup(c Case) (*env, error) {
+	e := &env{c: c, cf: deriveCase(c)}
+	cf := &e.cf
+	fired := false
+	e.fired = &fired
+	base := context.Background()
+	switch c.Ctx.Kind {
+	case "cancelled":
+		ctx, cancel := context.WithCancel(base)
+		cancel()
+		fired = true
+		e.ctx, e.cancel = ctx, cancel
+	case "deadline":
+		ctx, cancel := context.WithDeadline(base, time.Unix(1_000_000, 0))
+		fired = true
+		e.ctx, e.cancel = ctx, cancel
+	default:
+		e.ctx, e.cancel = context.WithCancel(base)
+	}
+	needModel := cf.isReg || cf.entry == "copy-reg"
+	var conf rcutil.Conf
+	if needModel {
+		e.m = rm.New()
+		e.m.Cap = reqCap
+		if c.Ctx.Kind == "cancel-at-seq" {
+			n, cancel := c.Ctx.N, e.cancel
+			e.m.OnArrive = func(en *rm.Entry) {
+				if en.Seq == n {
+					fired = true
+					cancel()
+				}
+			}
+		}
+	}
+	suffix := refSuffix(c.Ref.Form, c.ContentSeed)
+	if cf.isReg {
+		m := e.m
+		e.hostName = regHost
+		if c.Ref.Port {
+			e.hostName += ":5000"
+		}
+		h := m.AddHost(e.hostName)
+		ft := &h.Feat
+		ft.AnonMountStatus = c.Feat.MountStatus
+		ft.MountGrant = c.Feat.MountGrant
+		ft.ChunkMin = c.Feat.ChunkMin
+		e.locStyle = c.Feat.LocStyle
+		if e.locStyle < 0 || e.locStyle > 6 {
+			e.locStyle = 0
+		}
+		ft.LocStyle = e.locStyle
+		if e.locStyle == 6 {
+			ft.LocStyle = 0 // style 6 = deepening path-relative relocation, done by the wrapper in reloc.go
+		}
+		if ft.LocStyle == 5 {
+			ft.UploadBackend = backendHost
+			m.AddAlias(backendHost, h)
+		}
+		ft.PatchAccept = cf.accept
+		ft.PatchPartialMode = c.Feat.PartialMode & 1
+		ft.RefuseMono = c.Feat.RefuseMono
+		ft.Early201 = c.Feat.Early201
+		ft.Lax = cf.lax
+		var intercepts []func(en *rm.Entry, req *http.Request) *rm.Resp
+		// the registry demands Basic credentials; not combined with the hand-over to an upload
+		// backend (which host may be given the registry's credentials is C11's subject)
+		e.auth = c.Ref.Auth && e.locStyle != 5
+		if e.auth {
+			want := "Basic " + base64.StdEncoding.EncodeToString([]byte(authUser+":"+authPass))
+			intercepts = append(intercepts, func(en *rm.Entry, req *http.Request) *rm.Resp {
+				if req.Header.Get("Authorization") == want {
+					return nil
+				}
+				en.Note = "401 challenge"
+				return &rm.Resp{Status: 401, Header: http.Header{"Content-Type": {"application/json"}, "Www-Authenticate": {`Basic realm="c05"`}}, TruncateAt: -1,
+					Body: []byte(`{"errors":[{"code":"UNAUTHORIZED","message":"authentication required"}]}`)}
+			})
+		}
+		// a registry that announced a minimum chunk length may insist on it: once a further PATCH shows
+		// that the previous chunk was not the final one, a previous chunk below the minimum is an error.
+		// Not combined with partial acceptance (the remainder of a partly accepted chunk is legitimately short).
+		e.enforce = c.Feat.EnforceMin && c.Feat.ChunkMin > 0 && len(cf.accept) == 0
+		if e.enforce {
+			prevLen := map[string]int{}
+			min := c.Feat.ChunkMin
+			intercepts = append(intercepts, func(en *rm.Entry, _ *http.Request) *rm.Resp {
+				if en.Class != "upload-patch" {
+					return nil
+				}
+				sid := en.Ref
+				if i := strings.IndexByte(sid, '/'); i >= 0 {
+					sid = sid[:i]
+				}
+				if pl, ok := prevLen[sid]; ok && pl < min {
+					en.Note = fmt.Sprintf("rejected: previous chunk of %d bytes is below the announced minimum %d", pl, min)
+					return &rm.Resp{Status: 400, Header: http.Header{"Content-Type": {"application/json"}}, TruncateAt: -1,
+						Body: []byte(`{"errors":[{"code":"BLOB_UPLOAD_INVALID","message":"previous chunk below OCI-Chunk-Min-Length"}]}`)}
+				}
+				prevLen[sid] = len(en.Body)
+				return nil
+			})
+		}
+		if len(intercepts) > 0 {
+			h.Intercept = func(_ *rm.Model, _ *rm.Host, en *rm.Entry, req *http.Request) *rm.Resp {
+				for _, f := range intercepts {
+					if r := f(en, req); r != nil {
+						return r
+					}
+				}
+				return nil
+			}
+		}
+		pfx := ""
+		if c.Ref.Prefix {
+			pfx = pathPrefix + "/"
+		}
+		e.storeRepo = pfx + repoName
+		h.Repo(e.storeRepo)
+		e.st = regStore{m: m, h: h, repo: e.storeRepo}
+		for _, fs := range cf.faults {
+			x := rm.NewFault(fs.Kind)
+			x.AtSeq = fs.AtSeq
+			x.Status = fs.Status
+			m.AddFault(x)
+		}
+		var ro []reg.Opts
+		if c.OptLimit > 0 && c.LimitFirst {
+			ro = append(ro, reg.WithBlobLimit(int64(c.OptLimit)))
+		}
+		if c.OptChunk > 0 || c.OptMax != 0 {
+			ro = append(ro, reg.WithBlobSize(int64(c.OptChunk), int64(c.OptMax)))
+		}
+		if c.OptLimit > 0 && !c.LimitFirst {
+			ro = append(ro, reg.WithBlobLimit(int64(c.OptLimit)))
+		}
+		conf = rcutil.Conf{RetryLimit: cf.retryLimit, DelayInit: time.Microsecond, DelayMax: 20 * time.Microsecond, RegOpts: ro}
+		if c.HostChunk > 0 || c.HostMax != 0 || c.Ref.Prefix || c.Ref.NoTLS || c.Ref.Mirror != 0 || e.auth {
+			hc := config.Host{Name: e.hostName, Hostname: e.hostName, BlobChunk: int64(c.HostChunk), BlobMax: int64(c.HostMax)}
+			if c.Ref.Prefix {
+				hc.PathPrefix = pathPrefix
+			}
+			if c.Ref.NoTLS {
+				hc.TLS = config.TLSDisabled
+			}
+			if e.auth {
+				hc.User, hc.Pass = authUser, authPass
+			}
+			conf.Hosts = []config.Host{hc}
+			if c.Ref.Mirror != 0 {
+				m.AddHost(mirrorHost)
+				mc := config.Host{Name: mirrorHost, Hostname: mirrorHost}
+				if c.Ref.Mirror == 1 {
+					mc.Priority = 10
+				} else {
+					conf.Hosts[0].Priority = 10
+				}
+				conf.Hosts[0].Mirrors = []string{mirrorHost}
+				conf.Hosts = append(conf.Hosts, mc)
+			}
+		}
+		if e.locStyle == 6 || c.Feat.RangeBytes {
+			dp := &deepen{inner: m, on: e.locStyle == 6, rangeBytes: c.Feat.RangeBytes, depth: map[string]int{}}
+			conf.RegOpts = append(conf.RegOpts, reg.WithHTTPClient(&http.Client{Transport: dp}))
+		}
+		r, err := ref.New(e.hostName + "/" + repoName + suffix)
+		if err != nil {
+			return nil, err
+		}
+		e.tgt = r
+		// sources of the copy entries
+		switch cf.entry {
+		case "copy-repo":
+			sr, err := ref.New(e.hostName + "/" + otherRepo)
+			if err != nil {
+				return nil, err
+			}
+			e.srcRef = sr
+			srcRepo := pfx + otherRepo
+			e.srcPut = func(dig string, data []byte) error {
+				m.Lock()
+				h.Repo(srcRepo).Blobs[dig] = append([]byte{}, data...)
+				m.Unlock()
+				return nil
+			}
+		}
+	} else {
+		dir, err := os.MkdirTemp("", "c05-layout-")
+		if err != nil {
+			return nil, err
+		}
+		e.cleanup = append(e.cleanup, func() { os.RemoveAll(dir) })
+		ldir := filepath.Join(dir, "layout")
+		r, err := ref.New("ocidir://" + ldir + suffix)
+		if err != nil {
+			return nil, err
+		}
+		e.tgt = r
+		e.st = layoutStore{dir: ldir}
+		e.sigPrefix = "layout-"
+		conf = rcutil.Conf{RetryLimit: cf.retryLimit, DelayInit: time.Microsecond, DelayMax: 20 * time.Microsecond}
+	}
+	switch cf.entry {
+	case "copy-reg":
+		sh := e.m.AddHost(srcHost)
+		sr, err := ref.New(srcHost + "/" + otherRepo)
+		if err != nil {
+			return nil, err
+		}
+		e.srcRef = sr
+		m := e.m
+		e.srcPut = func(dig string, data []byte) error {
+			m.Lock()
+			sh.Repo(otherRepo).Blobs[dig] = append([]byte{}, data...)
+			m.Unlock()
+			return nil
+		}
+	case "copy-layout":
+		dir, err := os.MkdirTemp("", "c05-src-")
+		if err != nil {
+			return nil, err
+		}
+		e.cleanup = append(e.cleanup, func() { os.RemoveAll(dir) })
+		sr, err := ref.New("ocidir://" + dir)
+		if err != nil {
+			return nil, err
+		}
+		e.srcRef = sr
+		e.srcPut = func(dig string, data []byte) error {
+			fn := blobFile(dir, dig)
+			if err := os.MkdirAll(filepath.Dir(fn), 0o777); err != nil {
+				return err
+			}
+			return os.WriteFile(fn, data, 0o666)
+		}
+	}
+	if e.m != nil {
+		e.rc = rcutil.New(e.m, conf)
+	} else {
+		e.rc = regclient.New()
+	}
+	return e, nil
+}
+
+// preload puts a blob into the destination's raw storage.
+func (e *env) preload(dig string, data []byte) error {
+	switch st := e.st.(type) {
+	case regStore:
+		st.m.Lock()
+		st.h.Repo(st.repo).Blobs[dig] = append([]byte{}, data...)
+		st.m.Unlock()
+	case layoutStore:
+		fn := blobFile(st.dir, dig)
+		if err := os.MkdirAll(filepath.Dir(fn), 0o777); err != nil {
+			return err
+		}
+		return os.WriteFile(fn, data, 0o666)
+	}
+	return nil
+}
+
+// putOutcome is what one upload contributes to the case record.
+type putOutcome struct {
+	classes []string
+	nt      bool
+	key     string
+	v       *evid.Violation
+	watch   bool
+}
+
+func (e *env) onePut(idx int, seed uint64, length int, ev *evid.Collector) putOutcome {
+	c, cf := e.c, &e.cf
+	var out putOutcome
+	readErrAt := 0
+	if idx == 0 {
+		readErrAt = c.ReadErrAt
+	}
+	f := derivePut(c, cf, seed, length, readErrAt)
+	src := &source{data: f.full, pat: c.ShortReads, eofWithData: c.EOFWithData, errAt: -1}
+	if f.srcFails {
+		src.errAt = len(f.data)
+	}
+	if c.Ctx.Kind == "cancel-after-bytes" && cf.entry == "put" {
+		n, cancel, fired := c.Ctx.N, e.cancel, e.fired
+		src.onBytes = func() {
+			if src.delivered >= n && !*fired {
+				*fired = true
+				cancel()
+			}
+		}
+	}
 	var rdr io.Reader = plainSource{src}
-	if c.Seekable {
+	switch {
+	case c.SrcKind == "seek-error":
+		rdr = pipeSource{src}
+	case c.Seekable:
 		rdr = seekSource{src}
 	}
-	d := f.descriptor()
+	d := f.descriptor(cf.algo, c.DescExtra)
 
-	classes := []string{"dest:" + c.Dest, "decl:" + c.Declared.Kind, "algo:" + f.algo}
-	if c.Seekable {
-		classes = append(classes, "src:seekable")
-	} else {
-		classes = append(classes, "src:stream")
+	// pre-state
+	// the shortcut "anonymous mount of an existing blob" trusts the declared descriptor without reading the
+	// stream (documented on BlobPut); a blob that exists on the destination host is therefore only combined
+	// with a contradicting declaration when the host does not grant anonymous mounts
+	mayExist := !f.contra || !cf.isReg || c.Feat.MountStatus != 201
+	if idx == 0 {
+		if cf.isReg && c.Feat.Preseed && !f.contra && f.declDig != "" && cf.entry == "put" {
+			rs := e.st.(regStore)
+			pfx := strings.TrimSuffix(e.storeRepo, repoName)
+			rs.m.Lock()
+			rs.h.Repo(pfx + otherRepo).Blobs[f.trueDig] = append([]byte{}, f.data...)
+			rs.m.Unlock()
+			e.preseed = true
+		}
+		if c.Pre == "same-blob" && mayExist && !f.srcFails {
+			if err := e.preload(rm.Digest(cf.algo, f.full), f.full); err != nil {
+				out.v = &evid.Violation{Sig: "harness-setup", Msg: err.Error()}
+				return out
+			}
+			out.classes = append(out.classes, "pre:same-blob")
+		}
 	}
-	if len(c.ShortReads) > 0 {
-		classes = append(classes, "src:short-reads")
+	if e.srcPut != nil {
+		if err := e.srcPut(rm.Digest(cf.algo, f.full), f.full); err != nil {
+			out.v = &evid.Violation{Sig: "harness-setup", Msg: err.Error()}
+			return out
+		}
+	}
+	var before []byte
+	hadBefore := false
+	if f.declDig != "" {
+		before, hadBefore = e.st.get(f.declDig)
+	}
+
+	start := 0
+	if e.m != nil {
+		start = e.m.Requests()
+	}
+	firedBefore := *e.fired
+	res, timedOut := runOp(e.ctx, func(ctx context.Context) (descriptor.Descriptor, error) {
+		if cf.entry == "put" {
+			return e.rc.BlobPut(ctx, e.tgt, d, rdr)
+		}
+		return d, e.rc.BlobCopy(ctx, e.srcRef, e.tgt, d)
+	})
+	var entries []*rm.Entry
+	if e.m != nil {
+		entries = e.m.Entries()[start:]
+	}
+	o := observe(entries)
+	if os.Getenv("VERIF_C05_DUMP") != "" {
+		fmt.Fprintf(os.Stderr, "case=%+v\nput %d err=%v\n%s", c, idx, res.err, dumpLog(entries))
+	}
+	firedNow := *e.fired
+	_ = firedBefore
+
+	// ---- classification ----
+	cl := []string{"decl:" + f.kind, "len:" + lenClass(length, cf.chunkEff)}
+	if length >= 32767 {
+		cl = append(cl, "len:>=32KiB")
 	}
 	if f.contra {
-		classes = append(classes, "decl-contradicts")
+		cl = append(cl, "decl-contradicts")
 	}
-	classes = append(classes, "len:"+lenClass(c.Len, f.chunkEff))
-	if f.maxEff > 0 {
+	if f.srcFails {
+		cl = append(cl, "src:fails-mid-stream")
+	}
+	if cf.maxEff > 0 {
 		switch {
-		case c.Len > f.maxEff:
-			classes = append(classes, "len>max")
-		case c.Len == f.maxEff:
-			classes = append(classes, "len=max")
+		case length > cf.maxEff:
+			cl = append(cl, "len>max")
+		case length == cf.maxEff:
+			cl = append(cl, "len=max")
 		default:
-			classes = append(classes, "len<max")
+			cl = append(cl, "len<max")
 		}
+	}
+	fallback := o.monoTried && !o.monoOK && o.patches > 0
+	if cf.isReg {
+		if o.partial {
+			cl = append(cl, fmt.Sprintf("partial-seen:mode%d", c.Feat.PartialMode&1))
+		}
+		for _, k := range o.faultOn {
+			cl = append(cl, "fault-hit:"+k)
+		}
+		switch {
+		case o.mounted:
+			cl = append(cl, "path:mounted")
+		case o.monoOK:
+			cl = append(cl, "path:mono")
+		case fallback:
+			cl = append(cl, "path:fallback")
+		case o.monoTried:
+			cl = append(cl, "path:mono-failed")
+		case o.patches > 0 || res.err == nil:
+			cl = append(cl, "path:chunked")
+		default:
+			cl = append(cl, "path:none")
+		}
+		switch {
+		case o.patches >= 8:
+			cl = append(cl, "patches:8+")
+		case o.patches >= 3:
+			cl = append(cl, "patches:3-7")
+		case o.patches == 2:
+			cl = append(cl, "patches:2")
+		case o.patches == 1:
+			cl = append(cl, "patches:1")
+		}
+		if o.statusGets > 0 {
+			cl = append(cl, "status-get-seen")
+		}
+		if o.capHit {
+			cl = append(cl, "request-cap-hit")
+		}
+	}
+	if firedNow {
+		cl = append(cl, "ctx-cancellation-delivered")
+	}
+	if timedOut {
+		out.classes = append(out.classes, append(cl, "outcome:watchdog")...)
+		out.watch = true
+		return out
+	}
+	if res.err == nil {
+		cl = append(cl, "outcome:success")
+	} else {
+		cl = append(cl, "outcome:error", "error:"+errKind(res.err))
+	}
+	out.classes = append(out.classes, cl...)
+	out.nt = o.patches >= 2 || o.partial || fallback || f.contra
+	out.key = fmt.Sprintf("L%s/%d|%s|try%v|p%d", lenClass(length, cf.chunkEff), length, f.kind, f.tryPut, b2i(o.partial)+2*b2i(fallback))
+
+	debug := func(v *evid.Violation) *evid.Violation {
+		if os.Getenv("VERIF_DEBUG") != "" {
+			fmt.Fprintf(os.Stderr, "%v\ncase=%+v\nput %d err=%v\n%s", v, c, idx, res.err, dumpLog(entries))
+		}
+		return v
+	}
+	where := fmt.Sprintf("upload #%d entry=%s len=%d(stream yields %d) chunk=%d(eff %d) max=%d limit=%d decl=%s(digest %q size %d) dest=%s src=%s algo=%s ctx=%+v ref=%+v pre=%q feat=%+v faults=%v; %d requests, %d PATCH",
+		idx+1, cf.entry, length, len(f.data), cf.chunkCfg, cf.chunkEff, cf.maxEff, c.OptLimit, f.kind, short(f.declDig), f.declSize, c.Dest, srcName(c), cf.algo, c.Ctx, c.Ref, c.Pre, c.Feat, cf.faults, o.reqs, o.patches)
+	sp := e.sigPrefix
+
+	// injected failures and refusals add up in the client's per-host backoff state
+	e.backoffs += o.faultsHit
+	if cf.isReg && c.Feat.RefuseMono && f.tryPut && len(f.data) > 0 {
+		e.backoffs++
+	}
+
+	if res.panicked != "" {
+		out.v = debug(evid.V(sp+"panic-in-upload", "the client panicked: %s: %s", res.panicked, where))
+		return out
+	}
+	if o.ambiguous0 || e.dirty {
+		// the distribution spec cannot express "nothing accepted yet" in a Range header; whatever
+		// follows an upload status request at offset 0 is outside every clause
+		e.dirty = e.dirty || o.ambiguous0
+		if o.ambiguous0 {
+			ev.Class("exempt:range-0-0-ambiguity")
+		}
+		return out
+	}
+
+	// (2) a contradicting declaration: error, and nothing new under the declared digest
+	if f.contra {
+		// a monolithic PUT streams the caller's bytes and relies on the registry's mandatory digest
+		// verification; against the deliberately non-verifying (lax) model nothing can be required
+		if cf.lax && f.contraDig && f.tryPut {
+			ev.Class("exempt:lax-mono-wrong-digest")
+			return out
+		}
+		var after []byte
+		hasAfter := false
+		if f.declDig != "" {
+			after, hasAfter = e.st.get(f.declDig)
+		}
+		committed := hasAfter && (!hadBefore || string(after) != string(before))
+		if f.declDig == rm.Digest("sha256", nil) && f.declSize == 0 && len(f.data) > 0 && o.emptyPutCommitted && (res.err == nil || committed) {
+			// one root cause: the descriptor {digest of the empty blob, size 0} selects the body-less PUT of
+			// the empty-blob special case, which commits the empty blob without ever looking at the stream
+			out.v = debug(evid.V("empty-digest-declared-stream-never-read", "BlobPut with the declared digest of the empty blob (size 0/unknown) and a stream of %d bytes sent a body-less closing PUT "+
+				"without reading the stream (returned error: %v; empty blob committed under the declared digest: %v; bytes read from the stream afterwards: %d): %s", len(f.data), res.err, committed, src.delivered, where))
+			return out
+		}
+		if res.err == nil {
+			what := "size"
+			if f.contraDig {
+				what = "digest"
+			}
+			out.v = debug(evid.V(sp+"success-despite-wrong-"+what, "upload returned nil (descriptor %s size %d) although the declared %s contradicts the stream (true digest %s, true length %d): %s",
+				short(string(res.d.Digest)), res.d.Size, what, short(f.trueDig), len(f.data), where))
+			return out
+		}
+		if committed {
+			sig := "committed-under-declared-digest-despite-mismatch"
+			if !cf.isReg {
+				sig = "layout-file-under-declared-digest-despite-mismatch"
+			}
+			out.v = debug(evid.V(sig, "upload failed (%v) but the destination now holds %d bytes under the declared digest %s (before: present=%v): %s",
+				res.err, len(after), short(f.declDig), hadBefore, where))
+		}
+		return out
+	}
+
+	// (1) success => exact bytes under the returned digest, returned size = length
+	if res.err == nil {
+		retDig, retSize := string(res.d.Digest), res.d.Size
+		if cf.entry != "put" {
+			retDig, retSize = f.trueDig, int64(len(f.data)) // BlobCopy returns no descriptor
+		}
+		if retDig != f.trueDig {
+			out.v = debug(evid.V(sp+"returned-digest-wrong", "upload returned digest %s, the stream hashes to %s: %s", short(retDig), short(f.trueDig), where))
+			return out
+		}
+		got, ok := e.st.get(retDig)
+		if !ok {
+			out.v = debug(evid.V(sp+"success-but-blob-absent", "upload returned nil but the destination holds nothing under %s (upload requests that reached the mirror: %d): %s", short(f.trueDig), o.mirrorUploads, where))
+			return out
+		}
+		if string(got) != string(f.data) {
+			out.v = debug(evid.V(sp+"stored-bytes-differ", "destination holds %d bytes under %s that differ from the %d bytes of the caller's stream (first difference at offset %d): %s",
+				len(got), short(f.trueDig), len(f.data), firstDiff(got, f.data), where))
+			return out
+		}
+		if retSize != int64(len(f.data)) {
+			out.v = debug(evid.V(sp+"returned-size-wrong", "upload returned size %d, the stream has %d bytes: %s", retSize, len(f.data), where))
+			return out
+		}
+		return out
+	}
+
+	// (3) conformance: well-formed input, conforming destination => success
+	// outside the clause: a failing source, a cancelled / expired context, "applied, response lost"
+	// failures (the client cannot know the new upload state), and more transient failures than the
+	// configured retry/backoff limit tolerates
+	if f.srcFails {
+		ev.Class("exempt:source-failed")
+		return out
+	}
+	if firedNow {
+		ev.Class("exempt:context-cancelled")
+		return out
+	}
+	if o.resetAfter {
+		ev.Class("exempt:applied-response-lost")
+		return out
+	}
+	if e.backoffs >= cf.retryLimit {
+		ev.Class("exempt:beyond-retry-limit")
+		return out
+	}
+	// a behaviour that forces a rewind needs a source that can be rewound (documented on BlobPut)
+	if cf.isReg && !cf.rewindable && f.tryPut && len(f.data) > 0 && (c.Feat.RefuseMono || o.monoFaulted) {
+		ev.Class("exempt:rewind-needed-not-seekable")
+		return out
+	}
+	// the registry insists on a minimum chunk length above the client's configured memory limit for a chunk
+	if e.enforce && c.Feat.ChunkMin > cf.limitEff {
+		ev.Class("exempt:chunk-min-above-limit")
+		return out
+	}
+	if o.capHit && o.stall <= 10 {
+		// the harness's own request budget ran out while the upload was still advancing
+		ev.Class("exempt:request-cap-while-advancing")
+		return out
+	}
+	sig := sp + "wellformed-upload-failed-" + errKind(res.err)
+	if !cf.isReg && cf.entry == "put" {
+		sig = "layout-wellformed-put-failed-" + errKind(res.err)
+	}
+	if o.capHit {
+		sig = "wellformed-upload-request-cap-exceeded"
+	}
+	out.v = debug(evid.V(sig, "upload of a well-formed blob to a conforming destination failed: %v: %s", res.err, where))
+	return out
+}
+
+func srcName(c Case) string {
+	switch {
+	case c.Entry != "" && c.Entry != "put":
+		return "blob.Reader"
+	case c.SrcKind == "seek-error":
+		return "seek-error"
+	case c.Seekable:
+		return "seekable"
+	}
+	return "stream"
+}
+
+func check(c Case, ev *evid.Collector) *evid.Violation {
+	e, err := setup(c)
+	if err != nil {
+		return &evid.Violation{Sig: "harness-setup", Msg: err.Error()}
+	}
+	defer e.close()
+	cf := &e.cf
+
+	classes := []string{"dest:" + c.Dest, "algo:" + cf.algo, "entry:" + cf.entry, "src:" + srcName(c)}
+	if len(c.ShortReads) > 0 && cf.entry == "put" {
+		classes = append(classes, "src:short-reads")
 	}
 	if c.HostChunk > 0 {
 		classes = append(classes, "chunk-via:host")
@@ -572,348 +1371,120 @@ func check(c Case, ev *evid.Collector) *evid.Violation {
 	} else if c.OptMax != 0 {
 		classes = append(classes, "max-via:opt")
 	}
-
-	if !f.isReg {
-		return checkLayout(c, &f, d, rdr, classes, ev)
-	}
-
-	// ---- registry destination ----
-	m := rm.New()
-	m.Cap = reqCap
-	h := m.AddHost(regHost)
-	ft := &h.Feat
-	ft.AnonMountStatus = c.Feat.MountStatus
-	ft.ChunkMin = c.Feat.ChunkMin
-	locStyle := c.Feat.LocStyle
-	if locStyle < 0 || locStyle > 6 {
-		locStyle = 0
-	}
-	ft.LocStyle = locStyle
-	if locStyle == 6 {
-		ft.LocStyle = 0 // style 6 = deepening path-relative relocation, done by the wrapper in reloc.go
-	}
-	if ft.LocStyle == 5 {
-		ft.UploadBackend = backendHost
-		m.AddAlias(backendHost, h)
-	}
-	ft.PatchAccept = f.accept
-	ft.PatchPartialMode = c.Feat.PartialMode & 1
-	ft.RefuseMono = c.Feat.RefuseMono
-	ft.Early201 = c.Feat.Early201
-	ft.Lax = f.lax
-	// a registry that announced a minimum chunk length may insist on it: once a further PATCH shows
-	// that the previous chunk was not the final one, a previous chunk below the minimum is an error.
-	// Not combined with partial acceptance (the remainder of a partly accepted chunk is legitimately short).
-	enforceMin := c.Feat.EnforceMin && c.Feat.ChunkMin > 0 && len(f.accept) == 0
-	if enforceMin {
-		prevLen := map[string]int{}
-		h.Intercept = func(_ *rm.Model, _ *rm.Host, e *rm.Entry, _ *http.Request) *rm.Resp {
-			if e.Class != "upload-patch" {
-				return nil
-			}
-			sid := e.Ref
-			if i := strings.IndexByte(sid, '/'); i >= 0 {
-				sid = sid[:i]
-			}
-			if pl, ok := prevLen[sid]; ok && pl < c.Feat.ChunkMin {
-				e.Note = fmt.Sprintf("rejected: previous chunk of %d bytes is below the announced minimum %d", pl, c.Feat.ChunkMin)
-				return &rm.Resp{Status: 400, Header: http.Header{"Content-Type": {"application/json"}}, TruncateAt: -1,
-					Body: []byte(`{"errors":[{"code":"BLOB_UPLOAD_INVALID","message":"previous chunk below OCI-Chunk-Min-Length"}]}`)}
-			}
-			prevLen[sid] = len(e.Body)
-			return nil
+	if c.OptLimit > 0 && cf.isReg {
+		classes = append(classes, "blob-limit-set")
+		if c.Feat.ChunkMin > c.OptLimit {
+			classes = append(classes, "blob-limit-caps-chunk-min")
 		}
 	}
-	// the shortcut "anonymous mount of an existing blob" trusts the declared descriptor without
-	// reading the stream; it is only offered for a fully correct declaration (see notes)
-	preseed := c.Feat.Preseed && !f.contra && f.declDig != ""
-	if preseed {
-		h.Repo(otherRepo).Blobs[f.trueDig] = append([]byte{}, f.data...)
+	if c.DescExtra {
+		classes = append(classes, "desc-extra-fields")
 	}
-	h.Repo(repoName)
-	for _, fs := range f.faults {
-		x := rm.NewFault(fs.Kind)
-		x.AtSeq = fs.AtSeq
-		x.Status = fs.Status
-		m.AddFault(x)
+	if c.Ctx.Kind != "" {
+		classes = append(classes, "ctx:"+c.Ctx.Kind)
 	}
-	var ro []reg.Opts
-	if c.OptChunk > 0 || c.OptMax != 0 {
-		ro = append(ro, reg.WithBlobSize(int64(c.OptChunk), int64(c.OptMax)))
+	if c.Ref.Form != "" {
+		classes = append(classes, "ref:"+c.Ref.Form)
 	}
-	conf := rcutil.Conf{RetryLimit: f.retryLimit, DelayInit: time.Microsecond, DelayMax: 20 * time.Microsecond, RegOpts: ro}
-	if c.HostChunk > 0 || c.HostMax != 0 {
-		conf.Hosts = []config.Host{{Name: regHost, Hostname: regHost, BlobChunk: int64(c.HostChunk), BlobMax: int64(c.HostMax)}}
+	if c.Again > 0 {
+		classes = append(classes, fmt.Sprintf("again:%d", c.Again))
 	}
-	if locStyle == 6 || c.Feat.RangeBytes {
-		dp := &deepen{inner: m, on: locStyle == 6, rangeBytes: c.Feat.RangeBytes, depth: map[string]int{}}
-		conf.RegOpts = append(conf.RegOpts, reg.WithHTTPClient(&http.Client{Transport: dp}))
-	}
-	rc := rcutil.New(m, conf)
-	r, err := ref.New(regHost + "/" + repoName)
-	if err != nil {
-		return &evid.Violation{Sig: "harness-setup", Msg: err.Error()}
+	if cf.isReg {
+		classes = append(classes, fmt.Sprintf("loc-style:%d", e.locStyle), fmt.Sprintf("mount:%d", c.Feat.MountStatus))
+		if c.Feat.ChunkMin > cf.chunkCfg {
+			classes = append(classes, "chunk-min-raises")
+		} else if c.Feat.ChunkMin > 0 {
+			classes = append(classes, "chunk-min-below")
+		}
+		if len(cf.accept) > 0 {
+			classes = append(classes, fmt.Sprintf("partial-plan:mode%d", c.Feat.PartialMode&1))
+		}
+		if c.Feat.RefuseMono {
+			classes = append(classes, "refuse-mono")
+		}
+		if c.Feat.Early201 {
+			classes = append(classes, "early201")
+		}
+		if e.enforce {
+			classes = append(classes, "chunk-min-enforced")
+		}
+		if c.Feat.RangeBytes {
+			classes = append(classes, "range-bytes-prefix")
+		}
+		if c.Feat.MountGrant && cf.entry == "copy-repo" {
+			classes = append(classes, "cross-repo-mount-granted")
+		}
+		for _, fs := range cf.faults {
+			classes = append(classes, "fault-planned:"+fs.Kind)
+		}
+		if c.Ref.Port {
+			classes = append(classes, "host:port")
+		}
+		if c.Ref.Prefix {
+			classes = append(classes, "host:path-prefix")
+		}
+		if c.Ref.NoTLS {
+			classes = append(classes, "host:tls-disabled")
+		}
+		if c.Ref.Mirror != 0 {
+			classes = append(classes, fmt.Sprintf("host:mirror-%d", c.Ref.Mirror))
+		}
+		if e.auth {
+			classes = append(classes, "host:basic-auth")
+		}
 	}
 
-	res, timedOut := runPut(rc, r, d, rdr)
-	o := observe(m)
-	if os.Getenv("VERIF_C05_DUMP") != "" {
-		fmt.Fprintf(os.Stderr, "case=%+v\nerr=%v\n%s", c, res.err, dumpLog(m))
+	type spec struct {
+		seed uint64
+		len  int
 	}
-
-	// ---- classification ----
-	classes = append(classes, fmt.Sprintf("loc-style:%d", locStyle), fmt.Sprintf("mount:%d", c.Feat.MountStatus))
-	if c.Feat.ChunkMin > f.chunkCfg {
-		classes = append(classes, "chunk-min-raises")
-	} else if c.Feat.ChunkMin > 0 {
-		classes = append(classes, "chunk-min-below")
+	puts := []spec{{c.ContentSeed, c.Len}}
+	switch c.Again {
+	case 1:
+		puts = append(puts, spec{c.ContentSeed, c.Len})
+	case 2:
+		l2 := c.Len2
+		if l2 < 0 {
+			l2 = 0
+		}
+		puts = append(puts, spec{c.ContentSeed + 0x9e37, l2})
 	}
-	if len(f.accept) > 0 {
-		classes = append(classes, fmt.Sprintf("partial-plan:mode%d", ft.PatchPartialMode))
+	nt := false
+	key := ""
+	var viol *evid.Violation
+	watch := false
+	for i, p := range puts {
+		out := e.onePut(i, p.seed, p.len, ev)
+		classes = append(classes, out.classes...)
+		nt = nt || out.nt
+		key += out.key + ";"
+		if out.watch {
+			watch = true
+			break
+		}
+		if out.v != nil {
+			viol = out.v
+			break
+		}
 	}
-	if o.partial {
-		classes = append(classes, fmt.Sprintf("partial-seen:mode%d", ft.PatchPartialMode))
-	}
-	if c.Feat.RefuseMono {
-		classes = append(classes, "refuse-mono")
-	}
-	if c.Feat.Early201 {
-		classes = append(classes, "early201")
-	}
-	if enforceMin {
-		classes = append(classes, "chunk-min-enforced")
-	}
-	if c.Feat.RangeBytes {
-		classes = append(classes, "range-bytes-prefix")
-	}
-	if preseed {
+	if e.preseed {
 		classes = append(classes, "preseeded")
 	}
-	for _, fs := range f.faults {
-		classes = append(classes, "fault-planned:"+fs.Kind)
+	if watch {
+		ev.Case(false, "", classes...)
+		return &evid.Violation{Sig: sigWatchdog, Msg: "the upload did not return within the wall-clock watchdog (inconclusive)"}
 	}
-	for _, cl := range o.faultOn {
-		classes = append(classes, "fault-hit:"+cl)
-	}
-	fallback := o.monoTried && !o.monoOK && o.patches > 0
-	switch {
-	case o.mounted:
-		classes = append(classes, "path:mounted")
-	case o.monoOK:
-		classes = append(classes, "path:mono")
-	case fallback:
-		classes = append(classes, "path:fallback")
-	case o.monoTried:
-		classes = append(classes, "path:mono-failed")
-	default:
-		classes = append(classes, "path:chunked")
-	}
-	switch {
-	case o.patches >= 8:
-		classes = append(classes, "patches:8+")
-	case o.patches >= 3:
-		classes = append(classes, "patches:3-7")
-	case o.patches == 2:
-		classes = append(classes, "patches:2")
-	case o.patches == 1:
-		classes = append(classes, "patches:1")
-	}
-	if o.statusGets > 0 {
-		classes = append(classes, "status-get-seen")
-	}
-
-	nt := o.patches >= 2 || o.partial || fallback || f.contra
 	faultKey := ""
-	for _, fs := range f.faults {
+	for _, fs := range cf.faults {
 		faultKey += fmt.Sprintf("%s%d@%d,", fs.Kind, fs.Status, fs.AtSeq)
 	}
-	ntKey := fmt.Sprintf("%s|L%s/%d|c%d|m%d|try%v|%+v|%v|ls%d|pm%d|rm%v|e%v|mt%d/%v|min%d|%s|sk%v|sr%d|%s",
-		c.Dest, lenClass(c.Len, f.chunkEff), c.Len, f.chunkEff, f.maxEff, f.tryPut, c.Declared, f.accept, locStyle, ft.PatchPartialMode,
-		ft.RefuseMono, b2i(ft.Early201)+2*b2i(c.Feat.RangeBytes), c.Feat.MountStatus, preseed, c.Feat.ChunkMin*2+b2i(enforceMin), faultKey, c.Seekable, len(c.ShortReads), f.algo)
-
-	if timedOut {
-		classes = append(classes, "outcome:watchdog")
-		ev.Case(false, "", classes...)
-		return &evid.Violation{Sig: sigWatchdog, Msg: "BlobPut did not return within the wall-clock watchdog (inconclusive)"}
-	}
-	if res.err == nil {
-		classes = append(classes, "outcome:success")
-	} else {
-		classes = append(classes, "outcome:error", "error:"+errKind(res.err))
-	}
-	if o.capHit {
-		classes = append(classes, "request-cap-hit")
-	}
+	ntKey := fmt.Sprintf("%s|%s|%s|c%d|m%d|lim%d|%+v|%v|ls%d|pm%d|rm%v|e%d|mt%d/%v/%v|min%d|%s|%s|sr%d|err%d|%s|ctx%+v|ref%+v|pre%s|ag%d|x%v",
+		c.Dest, cf.entry, key, cf.chunkEff, cf.maxEff, c.OptLimit, c.Declared, cf.accept, e.locStyle, c.Feat.PartialMode&1,
+		c.Feat.RefuseMono, b2i(c.Feat.Early201)+2*b2i(c.Feat.RangeBytes), c.Feat.MountStatus, e.preseed, c.Feat.MountGrant, c.Feat.ChunkMin*2+b2i(e.enforce), faultKey,
+		srcName(c), len(c.ShortReads), c.ReadErrAt, cf.algo, c.Ctx, c.Ref, c.Pre, c.Again, c.DescExtra)
 	ev.Case(nt, ntKey, classes...)
-	ev.Sample(map[string]any{"case": c, "requests": o.reqs, "patches": o.patches, "ok": res.err == nil})
-
-	debug := func(v *evid.Violation) *evid.Violation {
-		if os.Getenv("VERIF_DEBUG") != "" {
-			fmt.Fprintf(os.Stderr, "%v\ncase=%+v\nerr=%v\n%s", v, c, res.err, dumpLog(m))
-		}
-		return v
-	}
-	where := fmt.Sprintf("len=%d chunk=%d(eff %d) max=%d decl=%s(digest %q size %d) dest=%s seekable=%v algo=%s feat=%+v faults=%v; %d requests, %d PATCH",
-		c.Len, f.chunkCfg, f.chunkEff, f.maxEff, c.Declared.Kind, short(f.declDig), f.declSize, c.Dest, c.Seekable, f.algo, c.Feat, f.faults, o.reqs, o.patches)
-
-	m.Lock()
-	blobs := map[string][]byte{}
-	for k, v := range h.Repos[repoName].Blobs {
-		blobs[k] = v
-	}
-	m.Unlock()
-
-	if o.ambiguous0 {
-		// the distribution spec cannot express "nothing accepted yet" in a Range header; whatever
-		// follows an upload status request at offset 0 is outside every clause
-		ev.Class("exempt:range-0-0-ambiguity")
-		return nil
-	}
-
-	// (2) a contradicting declaration: error, and nothing under the declared digest
-	if f.contra {
-		// a monolithic PUT streams the caller's bytes and relies on the registry's mandatory digest
-		// verification; against the deliberately non-verifying (lax) model nothing can be required
-		laxMonoExempt := f.lax && f.contraDig && f.tryPut
-		if laxMonoExempt {
-			ev.Class("exempt:lax-mono-wrong-digest")
-			return nil
-		}
-		_, committed := blobs[f.declDig]
-		if f.declDig == rm.Digest("sha256", nil) && f.declSize == 0 && c.Len > 0 && o.emptyPutCommitted && (res.err == nil || committed) {
-			// one root cause: the descriptor {digest of the empty blob, size 0} selects the body-less PUT of
-			// the empty-blob special case, which commits the empty blob without ever looking at the stream
-			return debug(evid.V("empty-digest-declared-stream-never-read", "BlobPut with the declared digest of the empty blob (size 0/unknown) and a stream of %d bytes sent a body-less closing PUT "+
-				"without reading the stream (returned error: %v; empty blob committed under the declared digest: %v; bytes read from the stream afterwards: %d): %s", c.Len, res.err, committed, src.delivered, where))
-		}
-		if res.err == nil {
-			what := "size"
-			if f.contraDig {
-				what = "digest"
-			}
-			return debug(evid.V("success-despite-wrong-"+what, "BlobPut returned nil (descriptor %s size %d) although the declared %s contradicts the stream (true digest %s, true length %d): %s",
-				short(string(res.d.Digest)), res.d.Size, what, short(f.trueDig), c.Len, where))
-		}
-		if f.declDig != "" {
-			if b, ok := blobs[f.declDig]; ok {
-				return debug(evid.V("committed-under-declared-digest-despite-mismatch", "BlobPut failed (%v) but the destination now holds %d bytes under the declared digest %s: %s",
-					res.err, len(b), short(f.declDig), where))
-			}
-		}
-		return nil
-	}
-
-	// (1) success => exact bytes under the returned digest, returned size = length
-	if res.err == nil {
-		if string(res.d.Digest) != f.trueDig {
-			return debug(evid.V("returned-digest-wrong", "BlobPut returned digest %s, the stream hashes to %s: %s", short(string(res.d.Digest)), short(f.trueDig), where))
-		}
-		got, ok := blobs[string(res.d.Digest)]
-		if !ok {
-			return debug(evid.V("success-but-blob-absent", "BlobPut returned nil but the destination repository holds nothing under %s: %s", short(f.trueDig), where))
-		}
-		if string(got) != string(f.data) {
-			return debug(evid.V("stored-bytes-differ", "destination holds %d bytes under %s that differ from the %d bytes of the caller's stream (first difference at offset %d): %s",
-				len(got), short(f.trueDig), len(f.data), firstDiff(got, f.data), where))
-		}
-		if res.d.Size != int64(c.Len) {
-			return debug(evid.V("returned-size-wrong", "BlobPut returned size %d, the stream has %d bytes: %s", res.d.Size, c.Len, where))
-		}
-		return nil
-	}
-
-	// (3) conformance: well-formed input, conforming server => success
-	// outside the clause: "applied, response lost" failures (the client cannot know the new upload
-	// state), and more transient failures than the configured retry/backoff limit tolerates
-	backoffs := o.faultsHit
-	if c.Feat.RefuseMono && f.tryPut && c.Len > 0 {
-		backoffs++ // the refused PUT counts against the per-host backoff limit
-	}
-	if o.resetAfter {
-		ev.Class("exempt:applied-response-lost")
-		return nil
-	}
-	if backoffs >= f.retryLimit {
-		ev.Class("exempt:beyond-retry-limit")
-		return nil
-	}
-	// a behaviour that forces a rewind needs a seekable source (documented on BlobPut)
-	if !c.Seekable && f.tryPut && c.Len > 0 && (c.Feat.RefuseMono || o.monoFaulted) {
-		ev.Class("exempt:rewind-needed-not-seekable")
-		return nil
-	}
-	sig := "wellformed-upload-failed-" + errKind(res.err)
-	if o.capHit {
-		sig = "wellformed-upload-request-cap-exceeded"
-	}
-	return debug(evid.V(sig, "BlobPut of a well-formed blob to a conforming registry failed: %v: %s", res.err, where))
-}
-
-func checkLayout(c Case, f *facts, d descriptor.Descriptor, rdr io.Reader, classes []string, ev *evid.Collector) *evid.Violation {
-	dir, err := os.MkdirTemp("", "c05-layout-")
-	if err != nil {
-		return &evid.Violation{Sig: "harness-setup", Msg: err.Error()}
-	}
-	defer os.RemoveAll(dir)
-	ldir := filepath.Join(dir, "layout")
-	r, err := ref.New("ocidir://" + ldir)
-	if err != nil {
-		return &evid.Violation{Sig: "harness-setup", Msg: err.Error()}
-	}
-	rc := regclient.New()
-	res, timedOut := runPut(rc, r, d, rdr)
-	nt := f.contra
-	ntKey := fmt.Sprintf("layout|L%d|%+v|sk%v|sr%d|%s", c.Len, c.Declared, c.Seekable, len(c.ShortReads), f.algo)
-	if timedOut {
-		ev.Case(false, "", append(classes, "outcome:watchdog")...)
-		return &evid.Violation{Sig: sigWatchdog, Msg: "layout BlobPut did not return within the wall-clock watchdog (inconclusive)"}
-	}
-	if res.err == nil {
-		classes = append(classes, "outcome:success")
-	} else {
-		classes = append(classes, "outcome:error", "error:"+errKind(res.err))
-	}
-	ev.Case(nt, ntKey, classes...)
-	ev.Sample(map[string]any{"case": c, "ok": res.err == nil})
-	where := fmt.Sprintf("len=%d decl=%s(digest %q size %d) dest=layout seekable=%v algo=%s", c.Len, c.Declared.Kind, short(f.declDig), f.declSize, c.Seekable, f.algo)
-	blobFile := func(dig string) string {
-		i := strings.IndexByte(dig, ':')
-		return filepath.Join(ldir, "blobs", dig[:i], dig[i+1:])
-	}
-	if f.contra {
-		if res.err == nil {
-			what := "size"
-			if f.contraDig {
-				what = "digest"
-			}
-			return evid.V("layout-success-despite-wrong-"+what, "layout BlobPut returned nil (descriptor %s size %d) although the declared %s contradicts the stream (true digest %s, length %d): %s",
-				short(string(res.d.Digest)), res.d.Size, what, short(f.trueDig), c.Len, where)
-		}
-		if f.declDig != "" {
-			if fi, err := os.Lstat(blobFile(f.declDig)); err == nil {
-				return evid.V("layout-file-under-declared-digest-despite-mismatch", "layout BlobPut failed (%v) but blobs/%s now exists (%d bytes): %s", res.err, strings.Replace(short(f.declDig), ":", "/", 1), fi.Size(), where)
-			}
-		}
-		return nil
-	}
-	if res.err != nil {
-		return evid.V("layout-wellformed-put-failed-"+errKind(res.err), "BlobPut of a well-formed blob into a fresh OCI layout failed: %v: %s", res.err, where)
-	}
-	if string(res.d.Digest) != f.trueDig {
-		return evid.V("layout-returned-digest-wrong", "layout BlobPut returned digest %s, the stream hashes to %s: %s", short(string(res.d.Digest)), short(f.trueDig), where)
-	}
-	got, err := os.ReadFile(blobFile(f.trueDig))
-	if err != nil {
-		return evid.V("layout-success-but-blob-absent", "layout BlobPut returned nil but blobs/<alg>/<hex> of %s cannot be read: %v: %s", short(f.trueDig), err, where)
-	}
-	if string(got) != string(f.data) {
-		return evid.V("layout-stored-bytes-differ", "layout file of %s holds %d bytes that differ from the %d bytes of the caller's stream (first difference at %d): %s",
-			short(f.trueDig), len(got), len(f.data), firstDiff(got, f.data), where)
-	}
-	if res.d.Size != int64(c.Len) {
-		return evid.V("layout-returned-size-wrong", "layout BlobPut returned size %d, the stream has %d bytes: %s", res.d.Size, c.Len, where)
-	}
-	return nil
+	ev.Sample(map[string]any{"case": c, "violation": viol != nil})
+	return viol
 }
 
 func b2i(b bool) int {
@@ -942,5 +1513,3 @@ func short(d string) string {
 	}
 	return d
 }
-
-var _ = sort.Ints
